@@ -307,7 +307,7 @@ def run(ctx):
     model_ok = built
     if built:
         try:
-            defs = ''.join('Definition net_%d : net := %s.\n' % (ni, G.coq_net(d)) for ni, (d, _) in enumerate(nets))
+            defs = ''.join('Definition net_%d : net := g_flatten %s.\n' % (ni, G.coq_gnet(d)) for ni, (d, _) in enumerate(nets))
             tabs = set()
             for ni, d, table, st, o in flat:
                 tabs.add(ni)
